@@ -134,7 +134,7 @@ func vfRunBad(cs vfBadCase, out *vfBadOutcome) string {
 	what := fmt.Sprintf("magic %08x", uint32(refobfs2.MagicValue)^cs.MagicXor)
 	sig := "c14-bad-magic-accepted"
 	if cs.MagicXor == 0 {
-		what = fmt.Sprintf("PADLEN %d", cs.PadLen)
+		what = "the right magic"
 		sig = "c14-oversized-padlen-accepted"
 	}
 	if !ep.SetupDone() {
@@ -158,6 +158,7 @@ func TestVerifC14Reject(t *testing.T) {
 		}
 		var o vfBadOutcome
 		if msg := vfRunBad(cs, &o); msg != "" {
+			fmt.Printf("VERIF-REPLAY-CASE: %s\n", rc)
 			t.Fatalf("%s\ncase %+v", msg, cs)
 		}
 		return
